@@ -28,10 +28,10 @@ RULE = (
     "distinct (identifier list, name->shape map, first individual's values); every case is non-trivial (>=1 conversion judged)."
 )
 REQUIRED = {
-    "rt_dataframe_judged": 300, "rt_pytorch_judged": 300, "rt_csv_judged": 300, "rt_json_judged": 300, "chains_judged": 1000,
-    "rejections_judged": 2000, "post_to_dataframe": 300, "post_from_dataframe": 300, "post_to_pytorch": 300,
-    "post_from_pytorch": 300, "post_save": 300, "post_load": 300, "post_add": 3000, "tables_judged": 100, "tensors_judged": 100,
-    "numeric_id_csv_judged": 30,
+    "rt_dataframe_judged": 150, "rt_pytorch_judged": 150, "rt_csv_judged": 150, "rt_json_judged": 150, "chains_judged": 500,
+    "rejections_judged": 1000, "post_to_dataframe": 150, "post_from_dataframe": 150, "post_to_pytorch": 150,
+    "post_from_pytorch": 150, "post_save": 150, "post_load": 150, "post_add": 3000, "tables_judged": 100, "tensors_judged": 100,
+    "numeric_id_csv_judged": 20,
 }
 ASSUMPTIONS = [
     "the table form has no 0-d cell and the tensor form is 2-D by contract: a scalar parameter may come back as a length-1 vector "
